@@ -38,9 +38,14 @@ def jnum (j : Json) : Except Err R :=
   | .num n => .ok (numOfJson n)
   | _ => .error .schema
 
+/-- `Value::GetUint()`.  The schema type `integer` admits every integer literal of 64 bits; `GetUint` asserts `kUintFlag`
+(0 ≤ v < 2³²), and rapidjson's assertion is turned into an exception of class `other` (`-1`, `4294967296` pass the schema). -/
 def jnat (j : Json) : Except Err Nat :=
   match j with
-  | .num n => if n.exponent == 0 ∧ n.mantissa ≥ 0 then .ok n.mantissa.toNat else .error .schema
+  | .num n =>
+    if n.exponent == 0 then
+      (if n.mantissa ≥ 0 ∧ n.mantissa < 4294967296 then .ok n.mantissa.toNat else .error .other)
+    else .error .schema
   | _ => .error .schema
 
 def jstr (j : Json) : Except Err String :=
@@ -94,7 +99,11 @@ def Cur.getBool (c : Cur) (name : String) : Except Err Bool :=
 /-- `prm.get<int>(name)` -/
 def Cur.getInt (c : Cur) (name : String) : Except Err Int :=
   let conv (j : Json) : Except Err Int := match j with
-    | .num n => if n.exponent == 0 then .ok n.mantissa else .error .schema
+    -- `Value::GetInt()` asserts `kIntFlag` (−2³¹ ≤ v < 2³¹): class `other` for the other integer literals the schema type `integer` admits
+    | .num n =>
+      if n.exponent == 0 then
+        (if n.mantissa ≥ -2147483648 ∧ n.mantissa < 2147483648 then .ok n.mantissa else .error .other)
+      else .error .schema
     | _ => .error .schema
   match c.val? name with
   | some v => conv v
@@ -268,12 +277,14 @@ def Cur.getValueAtArray (c : Cur) (name : String) : Except Err (List R × List R
   | some (.arr arr) => do
     arr.toList.foldlM (fun (acc : List R × List R) item => do
       let e ← jarr item
+      -- both items of an entry are `anyOf [number, array of arrays]` for the schema: `GetDouble()` of an array and `Size()` of a
+      -- number are rapidjson assertions (class `other`)
       let value : R ← (match e[0]? with
-        | some v => jnum v
+        | some v => asOther (jnum v)
         | none => .error .internal)
       match e[1]? with
       | some lists => do
-        let flat ← (← jarr lists).toList.mapM (fun l => do (← jarr l).toList.mapM jnum)
+        let flat ← (← asOther (jarr lists)).toList.mapM (fun l => do (← jarr l).toList.mapM jnum)
         return (acc.1 ++ [value], acc.2 ++ flat.flatten)
       | none => return acc) ([], [])
   | some v => do return ([0.0], [← jnum v])
